@@ -8,7 +8,7 @@ import (
 	"pgregory.net/rapid"
 )
 
-const c03Rule = "crash-point enumeration: each rapid-generated history (2-25 ops: SetItem/Set/Delete/Flush/evict/re-open/SetCollection/RemoveCollection, values incl. magic-marker fragments and run-time copies of the file's own root records; a final Flush is forced) runs once on a write-logging file; then for EVERY write i and EVERY byte count j in [0,len] the image 'writes 1..i-1 complete + first j bytes of write i' is rebuilt and opened with NewStore: no panic, contents == model of the last flush whose root-record write lies completely inside the image (all collections together), or empty store / 'couldn't find roots' if none; a fresh store on a copy agrees; every cut is checked a second time with junk appended (random bytes, marker fragments, truncated or relocated copies of the file's own root records, zeros, and records framed exactly for the position they lie at but wrong in one inner field: version, leading length, JSON body, one marker byte); tail sweep: the complete file of the first history of each shard (thorough: every 20th history) is re-opened with junk tails of every length in [kB-72, kB+24] for B in {4096..65536}, k in {1,2}. On every cut inside a root record (3 cut points) and on drawn other cuts a generated continuation (1-6 mutations + Flush) runs on the recovered store with the durability oracle on, and that flush is torn once more. evaluations = images opened; non-trivial = the cut lies strictly inside a flush that follows a completed flush with a different state; distinct by (history hash, i, j)."
+const c03Rule = "crash-point enumeration: each rapid-generated history (2-25 ops: SetItem/Set/Delete/Flush/evict/re-open/SetCollection/RemoveCollection, values incl. magic-marker fragments and run-time copies of the file's own root records; a final Flush is forced) runs once on a write-logging file; then for EVERY write i and EVERY byte count j in [0,len] the image 'writes 1..i-1 complete + first j bytes of write i' is rebuilt and opened with NewStore: no panic, contents == model of the last flush whose root-record write lies completely inside the image (all collections together), or empty store / 'couldn't find roots' if none; a fresh store on a copy agrees; every cut is checked a second time with junk appended (random bytes, marker fragments, truncated or relocated copies of the file's own root records, zeros, and records framed exactly for the position they lie at but wrong in one inner field: version, leading length, JSON body, one marker byte); tail sweep: the complete file of the first history of each shard (thorough: every 50th history) is re-opened with junk tails of every length in [kB-72, kB+24] for B in {4096..65536}, k in {1,2}. On every cut inside a root record (3 cut points) and on drawn other cuts a generated continuation (1-6 mutations + Flush) runs on the recovered store with the durability oracle on, and that flush is torn once more. evaluations = images opened; non-trivial = the cut lies strictly inside a flush that follows a completed flush with a different state; distinct by (history hash, i, j)."
 
 func TestC03(t *testing.T) {
 	st := NewStats("C03", c03Rule, append(append([]string{}, commonAssumptions...),
@@ -149,10 +149,10 @@ func TestC03(t *testing.T) {
 		}
 		check(len(rec.writes), 0) // everything written
 
-		// tail sweep (the first history of each shard; every 20th in the thorough
+		// tail sweep (the first history of each shard; every 50th in the thorough
 		// tier): the complete file followed by junk tails whose lengths cover the
 		// neighbourhoods of the multiples of every power-of-two block size up to 64 KiB
-		if histories == 1 || (thoroughTier && histories%20 == 0) {
+		if histories == 1 || (thoroughTier && histories%50 == 0) {
 			for _, n := range sweepLengths() {
 				tc := c
 				tc.Cfg.Note = "tail"
